@@ -34,6 +34,7 @@ class Acc:
         self.steps = 0
         self.node_kinds = set()
         self.exhaustive = True
+        self.not_run = 0
 
     def add(self, name, st, summ, exhaustive=True):
         self.states += st.get('distinct', 0)
@@ -46,6 +47,7 @@ class Acc:
             self.violations_total += summ['violations']
             self.unconfirmed += summ.get('unconfirmed', 0)
             self.steps += summ.get('steps', 0)
+            self.not_run += summ.get('not_run', 0)
             self.node_kinds |= set(summ.get('node_kinds') or [])
             for k, v in summ['classes'].items():
                 self.classes[k] = self.classes.get(k, 0) + v
@@ -70,6 +72,7 @@ class Acc:
             'unpinned_cases': self.cases - self.pinned,
             'unconfirmed_timeouts_or_crashes': self.unconfirmed,
             'evaluator_steps_observed': self.steps,
+            'cases_not_run_after_repeated_hangs': self.not_run,
         }
         if self.node_kinds:
             cov['ast_node_kinds_executed'] = sorted(self.node_kinds)
@@ -164,3 +167,22 @@ def c10(ctx, api):
                1000 if thorough else 343), st, summ)
     return acc.result(RULE_PINNED + '; each case also carries the fully parenthesised text, which must give the same result on the real code',
                       extra={'model_checks': ['GroupsByTable', 'UnaryTighterThanBinary', 'ParenNeutral', 'AllParse']})
+
+
+# --------------------------------------------------------------------- C12
+@plan('C12')
+def c12(ctx, api):
+    acc = Acc()
+    thorough = ctx['tier'] == 'thorough'
+    st, text = api['run_tlc_only'](ctx, 'slice-lemmas', 'SliceLemmas',
+                                   cfg(constants={'MaxLen': 5 if thorough else 4, 'Range': 8 if thorough else 7},
+                                       invariants=('Lemmas',)), timeout=1500)
+    if st['errors'] or st['rc'] != 0:
+        raise api['Broken']('slice lemmas failed on the model: %s' % st['errors'][:3])
+    acc.add('SliceLemmas: clamp-and-walk = set definition; huge magnitudes behave as length+1', st, None)
+    maxn = 6 if thorough else 4
+    st, summ = api['run_tlc_to_harness'](ctx, 'slices', 'GenSlice',
+                                         cfg(constants={'Emit': 'TRUE', 'Prop': '"C12"', 'MaxN': maxn}), timeout=3000)
+    acc.add('GenSlice: n<=%d, every (start,stop,step) in absent/[-n-2,n+2]/64-bit limits, arrays and strings, 3 followers' % maxn,
+            st, summ)
+    return acc.result(RULE_PINNED, extra={'bounds': {'max_length': maxn}})
